@@ -1057,9 +1057,15 @@ package restful
 //@ props C02 C05
 //@ ensures len: len(result) == len(l) + 1
 //@ ensures owned: fresh(result) || sameArray(result, l)
+// C05: the entry goes behind every entry of at least its quality and before the first entry of lower quality; the
+// other entries keep their order (so a list sorted by descending quality stays sorted, header order on ties)
+//@ ensures Q/prefix: forall(0, old(len(l)), func(k int) bool { return forall(0, k+1, func(m int) bool { return old(l[m]).quality >= e.quality }) ==> result[k] == old(l[k]) })
+//@ ensures Q/shifted: forall(0, old(len(l)), func(k int) bool { return exists(0, k+1, func(m int) bool { return e.quality > old(l[m]).quality }) ==> result[k+1] == old(l[k]) })
+//@ ensures Q/placed: forall(0, old(len(l))+1, func(k int) bool { return forall(0, k, func(m int) bool { return old(l[m]).quality >= e.quality }) && (k == old(len(l)) || e.quality > old(l[k]).quality) ==> result[k] == e })
 //@ modifies elems(l)
 //@ nopanic
-//@ loop 0 invariant true
+//@ loop 0 invariant Q/before: forall(0, it_i, func(k int) bool { return l[k].quality >= e.quality })
+//@ loop 0 invariant Q/same: forall(0, len(l), func(k int) bool { return l[k] == old(l[k]) })
 
 //@ func sortedMimes
 //@ props C02 C05
